@@ -185,6 +185,14 @@ func VerifC08_BatchExpiry() {
 	e.bind(e.p2, sdkmath.NewInt(10), dep2, sdkmath.LegacyDec{}, 5, verifBool("available2"))
 	repeated := verifChoice("repeated", 2) == 1
 	rc := e.context([]sdk.AccAddress{e.p1, e.p2}, sdkmath.NewInt(1000), 1, types.RUNNING, repeated)
+	// the next batch of a repeated context is due one frequency after this one: later than this block, or
+	// - when the frequency equals the timeout (also the default) - in this very block
+	sameBlock := repeated && verifChoice("frequencyEqualsTimeout", 2) == 1
+	if sameBlock {
+		rc.RepeatedFrequency = uint64(svTimeout)
+	}
+	rc.RepeatedTotal = -1
+	e.bank.fund(e.consumer, svDenom, sdkmath.NewInt(1000000))
 	fee1, fee2 := verifIntIn("fee1", one, w), verifIntIn("fee2", one, w)
 	h0 := svHeight - svTimeout
 	rc.BatchCounter, rc.BatchState, rc.BatchRequestCount = 1, types.BATCHRUNNING, 2
@@ -218,10 +226,16 @@ func VerifC08_BatchExpiry() {
 	if !answered {
 		refund = verifAdd(refund, fee1.BigInt())
 	}
-	verifAssert(verifSub(e.bal(e.consumer), c0).Cmp(refund) == 0, "each expired request's fee goes entirely back to the consumer, once")
-	verifAssert(verifSub(r0, e.reqEscrow()).Cmp(refund) == 0, "refunds come out of the request escrow")
+	// when the next batch starts in this very block the consumer also pays that batch's fees
+	newFees := big.NewInt(0)
+	if sameBlock {
+		_, newFees = e.batchRequests(2)
+	}
+	verifAssert(verifSub(e.bal(e.consumer), c0).Cmp(verifSub(refund, newFees)) == 0, "each expired request's fee goes entirely back to the consumer, once")
+	verifAssert(verifSub(r0, e.reqEscrow()).Cmp(verifSub(refund, newFees)) == 0, "refunds come out of the request escrow")
 	verifAssert(!e.k.IsRequestActive(e.ctx, id1) && !e.k.IsRequestActive(e.ctx, id2), "no request stays active after its expiration height")
-	verifAssert(!e.k.HasRequestBatchExpiration(e.ctx, e.ctxID), "the expiration entry is consumed")
+	verifAssert(sameBlock || !e.k.HasRequestBatchExpiration(e.ctx, e.ctxID), "the expiration entry is consumed")
+	verifAssert(!e.store().Has(types.GetExpiredRequestBatchKey(e.ctxID, svHeight)), "no expiration entry at the current height remains")
 	// slashing: floor(deposit*fraction) per expired request, deposit escrow -> fee pool, binding reduced by the same
 	e18 := verifPow10(18)
 	slashed := verifSub(e.bal(vModuleAddr(svFeeCollector)), f0)
@@ -243,8 +257,14 @@ func VerifC08_BatchExpiry() {
 	_, still := e.k.GetRequestContext(e.ctx, e.ctxID)
 	if !repeated {
 		verifAssert(!still, "a one-shot context is removed after its batch")
-	} else {
+	} else if !sameBlock {
 		verifAssert(still && e.k.HasNewRequestBatch(e.ctx, e.ctxID), "a repeated context below its total schedules its next batch")
+	} else {
+		// due in this block: it must have been handled in this block (issued, or skipped if nobody is
+		// eligible any more) - never left behind in the queue
+		rc2, _ := e.k.GetRequestContext(e.ctx, e.ctxID)
+		verifAssert(still && !e.store().Has(types.GetNewRequestBatchKey(e.ctxID, svHeight)), "a batch due in this block does not stay queued")
+		verifAssert(rc2.BatchCounter == 2 && e.k.HasRequestBatchExpiration(e.ctx, e.ctxID), "batch n+1 starts exactly one frequency after batch n")
 	}
 }
 
